@@ -311,22 +311,37 @@ def run(ctx):
 
 
 def same_process(ctx):
-    """F15: a failing call followed by a successful one in one process"""
+    """a failing call followed by a successful one in ONE process: whatever stage the first call failed in, the later call
+    must not create (or replace) the file at the failed call's output path.  F15: a failure inside the serialisation itself
+    leaves the temporary file in the process-wide queue"""
     rng = ctx.rng
-    with systems.Workdir() as wd:
-        prepare(wd, rng)
-        reset_writer()
-        exc1 = run_program('gen_params', wd, 'failed.itp', fail_target='vermouth.gmx.itp:write_molecule_itp', fresh_writer=False)
-        mid = listing(os.path.join(wd, 'out'))
-        exc2 = run_program('gen_coords', wd, 'out.gro', fresh_writer=False)
-        after = listing(os.path.join(wd, 'out'))
-        reset_writer()
-    ctx.case(('same_process', 'failed gen_params then gen_coords'), nontrivial=True)
-    if 'failed.itp' in mid:
-        ctx.violation('spec', "gen_params failed during serialisation but its output file exists", {'same_process': True, 'listing': mid})
-    if 'failed.itp' in after:
-        ctx.violation('spec', "a failed gen_params call followed by a successful gen_coords call in the same process created the failed "
-                      "call's output file", {'same_process': True, 'listing': sorted(after)}, finding='F15')
+    for target, _ in STAGES['gen_params']:
+        for pre in (False, True):
+            with systems.Workdir() as wd:
+                prepare(wd, rng)
+                outdir = os.path.join(wd, 'out')
+                if pre:
+                    with open(os.path.join(outdir, 'failed.itp'), 'w') as fh:
+                        fh.write('OLD CONTENT')
+                reset_writer()
+                exc1 = run_program('gen_params', wd, 'failed.itp', fail_target=target, fresh_writer=False)
+                mid = listing(outdir)
+                exc2 = run_program('gen_coords', wd, 'out.gro', fresh_writer=False)
+                after = listing(outdir)
+                reset_writer()
+            if exc1 is None:
+                continue        # the stage is not reached on this input
+            ctx.case(('same_process', target, pre), nontrivial=True)
+            ctx.feature('same_process_histories')
+            want = {'failed.itp': 'OLD CONTENT'} if pre else {}
+            rep = {'same_process': True, 'stage': target, 'pre_existing': pre}
+            if mid != want:
+                ctx.violation('spec', f"gen_params failed in {target.split(':')[1]} but the output directory changed: {sorted(mid)}", dict(rep, listing=sorted(mid)))
+            got = {k: v for k, v in after.items() if k != 'out.gro'}
+            if got != want:
+                ctx.violation('spec', f"gen_params failed in {target.split(':')[1]}; a later successful gen_coords call in the same process "
+                              f"{'replaced the file' if pre else 'created a file'} at the failed call's output path (directory now: {sorted(after)})",
+                              dict(rep, listing=sorted(after)), finding='F15' if target == 'vermouth.gmx.itp:write_molecule_itp' else None)
 
 
 NATURAL_SEQ = [
